@@ -282,8 +282,19 @@ def behaviours_of(acts, default="ok"):
 SET_RUNS = {"R1": ["r1"], "R2": ["r1", "r2"], "R3": ["r1", "r2", "r3"], "None": []}
 
 
-def run_driver(ctx, scenarios, jobs=None, timeout=1800, race=False, label="atp"):
-    drv = ctx.gobuild("./cmd/atp", race=race)
+def yield_binary(ctx):
+    """the atp driver built with a `go build -overlay` in which a yield point precedes every statement of
+    atp/client.go and atp/server.go of the tree under test (generated now, from its current sources)"""
+    gen = ctx.gobuild("./cmd/yieldgen", tags="")
+    d = os.path.join(ctx.tmp, "yield")
+    os.makedirs(d, exist_ok=True)
+    p = ctx.run([gen, "-repo", os.path.realpath(common.REPO), "-out", d])
+    n = int((p.stdout.split() or ["0"])[0])
+    return ctx.gobuild("./cmd/atp", overlay=os.path.join(d, "overlay.json"), name="atp_yield"), n
+
+
+def run_driver(ctx, scenarios, jobs=None, timeout=1800, race=False, label="atp", binary=None):
+    drv = binary or ctx.gobuild("./cmd/atp", race=race)
     inp = os.path.join(ctx.tmp, "%s-in-%d.ndjson" % (label, len(os.listdir(ctx.tmp))))
     out = inp.replace("-in-", "-out-")
     common.write_ndjson(inp, scenarios)
